@@ -166,14 +166,20 @@ Fixpoint points_of (mem : bytes) (n : nat) : list pt :=
 Definition tag_in (tags : list (Z * Z)) (l t : Z) : bool :=
   existsb (fun '(a, b) => (a =? l)%Z && (b =? t)%Z) tags.
 
+(* the tag filter of read_gds is a Set<Tag>; a Tag packs two uint32 halves, and the loader stores the sign-extended 16-bit
+   LAYER / DATATYPE field in such a half (layer 0x8001 -> 4294934529): membership compares the 32-bit patterns *)
+Definition u32 (z : Z) : Z := (z mod 4294967296)%Z.
+Definition tag_sel (tags : list (Z * Z)) (l t : Z) : bool :=
+  existsb (fun '(a, b) => (u32 a =? u32 l)%Z && (u32 b =? u32 t)%Z) tags.
+
 Definition commit (filter : option (list (Z * Z))) (c : gcell) (e : gelem) : gcell :=
   match e with
   | EPoly p =>
-      let keep := match filter with None => true | Some ts => tag_in ts (p_layer p) (p_type p) end in
+      let keep := match filter with None => true | Some ts => tag_sel ts (p_layer p) (p_type p) end in
       if keep then {| c_name := c_name c; c_polys := c_polys c ++ [p]; c_paths := c_paths c;
                       c_refs := c_refs c; c_labels := c_labels c |} else c
   | EPath h =>
-      let keep := match filter with None => true | Some ts => tag_in ts (h_layer h) (h_type h) end in
+      let keep := match filter with None => true | Some ts => tag_sel ts (h_layer h) (h_type h) end in
       if keep then {| c_name := c_name c; c_polys := c_polys c; c_paths := c_paths c ++ [h];
                       c_refs := c_refs c; c_labels := c_labels c |} else c
   | ERef r => {| c_name := c_name c; c_polys := c_polys c; c_paths := c_paths c;
